@@ -8,6 +8,23 @@ import time
 from concurrent.futures import ProcessPoolExecutor
 
 
+def _z3_abs_check(args):
+    """z3 on the string-abstracted query (sound for unsat only)"""
+    text, timeout_ms, seed = args
+    from .strabs import abstract
+    t0 = time.time()
+    try:
+        ab = abstract(text)
+    except Exception as e:
+        return "error", "abstraction failed: %r" % (e,), time.time() - t0
+    if ab is None:
+        return "unknown", "not abstractable", time.time() - t0
+    r, reason, dt = _z3_check((ab, timeout_ms, seed, False))
+    if r == "sat":
+        r, reason = "unknown", "model of the abstraction only"
+    return r, reason, time.time() - t0
+
+
 def _z3_check(args):
     text, timeout_ms, seed, mbqi = args
     import z3
@@ -53,7 +70,7 @@ def _cvc5_check(args):
     return r, reason, time.time() - t0
 
 
-def discharge(goals, timeout_s=20, workers=None, use_cvc5=True, both=False, seed=0, stages=("z3", "z3-mbqi", "cvc5")):
+def discharge(goals, timeout_s=20, workers=None, use_cvc5=True, both=False, seed=0, stages=("z3-abs", "z3", "z3-mbqi", "cvc5")):
     """Sets g.status in {unsat, sat, unknown, error}, g.solver, g.time.
     stages: which back ends to try, in order, on the goals still open."""
     workers = workers or min(16, os.cpu_count() or 4)
@@ -71,7 +88,17 @@ def discharge(goals, timeout_s=20, workers=None, use_cvc5=True, both=False, seed
                 open_ = todo
             if not open_:
                 break
-            if stage in ("z3", "z3-mbqi"):
+            if stage == "z3-abs":
+                rs = list(ex.map(_z3_abs_check, [(g.to_smt2(), int(min(timeout_s, 20) * 1000), seed) for g in open_], chunksize=1))
+                for g, (r, reason, dt) in zip(open_, rs):
+                    stats["z3_time"] += dt
+                    g.time += dt
+                    if r == "unsat":
+                        g.status, g.solver = "unsat", "z3(strings abstracted)"
+                        stats["z3"] += 1
+                    elif g.status != "unsat":
+                        g.status, g.reason, g.solver = "unknown", reason, "z3-abs"
+            elif stage in ("z3", "z3-mbqi"):
                 rs = list(ex.map(_z3_check, [(g.to_smt2(), int(timeout_s * 1000), seed, stage == "z3-mbqi") for g in open_], chunksize=1))
                 for g, (r, reason, dt) in zip(open_, rs):
                     stats["z3_time"] += dt
